@@ -228,6 +228,18 @@ func init() {
 			// ctx.Err() is nil, Canceled or DeadlineExceeded
 			e := fc.fresh("ctxerr", SErr)
 			fc.assume(st, tOr(tEq(e, T(SErr, "nilErr")), tEq(e, T(SErr, "sent_context_Canceled")), tEq(e, T(SErr, "sent_context_DeadlineExceeded"))))
+			// Err() is non-nil exactly when the context is done; once observed done it stays done
+			if ctx, ok := args[0].(Term); ok {
+				k := ctxDoneKey(ctx)
+				known, has := st.cells[k].(Term)
+				if !has {
+					known = tFalse
+				}
+				d := fc.fresh("ctxisdone", SBool)
+				fc.assume(st, tImp(known, d))
+				fc.assume(st, tEq(tEq(e, T(SErr, "nilErr")), tNot(d)))
+				st.cells[k] = d
+			}
 			return e
 		},
 		"context.Context.Deadline": func(fc *FnCtx, fr *Frame, st *State, instr ssa.Instruction, c *ssa.CallCommon, args []Val, rt types.Type) Val {
@@ -433,17 +445,22 @@ func modelSortSlice(fc *FnCtx, fr *Frame, st *State, instr ssa.Instruction, c *s
 	inv := fmt.Sprintf("perminv_%d", fc.nfresh)
 	fc.decls.fun(perm, []string{SInt}, SInt)
 	fc.decls.fun(inv, []string{SInt}, SInt)
-	ln, off := slLen(s).S, slOff(s).S
-	fc.assume(st, T(SBool, fmt.Sprintf("(forall ((k Int)) (! (=> (and (<= 0 k) (< k %s)) (and (<= 0 (%s k)) (< (%s k) %s) (= (%s (%s k)) k) (= (select %s (+ %s k)) (select %s (+ %s (%s k)))))) :pattern ((%s k))))",
-		ln, perm, perm, ln, inv, perm, newc.S, off, oldc.S, off, perm, perm)))
-	fc.assume(st, T(SBool, fmt.Sprintf("(forall ((k Int)) (! (=> (and (<= 0 k) (< k %s)) (and (<= 0 (%s k)) (< (%s k) %s) (= (%s (%s k)) k))) :pattern ((%s k))))",
-		ln, inv, inv, ln, perm, inv, inv)))
+	// all facts are stated over ABSOLUTE indices a in [off, off+len) of the backing array so that the
+	// instantiation patterns contain no arithmetic (z3 normalises sums, which defeats e-matching)
+	lo := fc.nameTerm("sortlo", slOff(s)).S
+	hi := fc.nameTerm("sorthi", tAdd(slOff(s), slLen(s))).S
+	fc.assume(st, T(SBool, fmt.Sprintf("(forall ((a Int)) (! (=> (and (<= %s a) (< a %s)) (and (<= %s (%s a)) (< (%s a) %s) (= (%s (%s a)) a) (= (select %s a) (select %s (%s a))))) :pattern ((%s a)) :pattern ((select %s a))))",
+		lo, hi, lo, perm, perm, hi, inv, perm, newc.S, oldc.S, perm, perm, newc.S)))
+	fc.assume(st, T(SBool, fmt.Sprintf("(forall ((a Int)) (! (=> (and (<= %s a) (< a %s)) (and (<= %s (%s a)) (< (%s a) %s) (= (%s (%s a)) a))) :pattern ((%s a))))",
+		lo, hi, lo, inv, inv, hi, perm, inv, inv)))
+	// elements outside the slice are untouched
+	fc.assume(st, T(SBool, fmt.Sprintf("(forall ((a Int)) (! (=> (or (< a %s) (<= %s a)) (= (select %s a) (select %s a))) :pattern ((select %s a))))", lo, hi, newc.S, oldc.S, newc.S)))
 	// sortedness w.r.t. the comparator when it is a closure comparing heights
 	if cv, ok := args[1].(*ClosureVal); ok && cv.Fn != nil && es == SHdr {
 		dir := comparatorDirection(cv.Fn)
 		if dir != "" {
-			fc.assume(st, T(SBool, fmt.Sprintf("(forall ((i Int) (j Int)) (! (=> (and (<= 0 i) (< i j) (< j %s)) (%s (height (select %s (+ %s i))) (height (select %s (+ %s j))))) :pattern ((select %s (+ %s i)) (select %s (+ %s j)))))",
-				ln, dir, newc.S, off, newc.S, off, newc.S, off, newc.S, off)))
+			fc.assume(st, T(SBool, fmt.Sprintf("(forall ((i Int) (j Int)) (! (=> (and (<= %s i) (< i j) (< j %s)) (%s (height (select %s i)) (height (select %s j)))) :pattern ((select %s i) (select %s j))))",
+				lo, hi, dir, newc.S, newc.S, newc.S, newc.S)))
 			fc.usedModels["sort.Slice comparator "+dir+" on Height() (read from "+funcDisplayName(cv.Fn)+")"] = true
 		} else {
 			fc.abstract(instr, "sort.Slice comparator not recognised: order unknown")
